@@ -537,8 +537,9 @@ inline Val genScalar(Rng& r, const GenOpts& o) {
     std::string payload;
     size_t n = size_t(r.below(20));
     if (r.chance(1, 6)) {
-      static const size_t blocks[] = {15, 16, 17, 31, 32, 33, 47, 48, 64};  // around multiples of a 16-byte block
-      n = blocks[r.below(9)];
+      // around multiples of a 16-byte block; and the empty payload (a header with nothing behind it)
+      static const size_t blocks[] = {15, 16, 17, 31, 32, 33, 47, 48, 64, 0, 0, 0};
+      n = blocks[r.below(12)];
     }
     if (o.binEdges && r.chance(1, 12)) {
       static const size_t edges[] = {254, 255, 256, 257};
